@@ -4,6 +4,7 @@ import (
 	"bufio"
 	"errors"
 	"fmt"
+	"math"
 	"os"
 	"path/filepath"
 	"strconv"
@@ -390,6 +391,50 @@ func main() {
 			res := implEval(src, env)
 			out.count(strings.Fields(src)[1])
 			out.put(fmt.Sprintf("eval %s %s %s", meth, encEnv(env), encStr(src)), res, verdict("C11", c11), verdict("C08", panicOnly(res)))
+		}
+		out.close()
+	case "fmtfloat": // <seed> <n> <outdir>: a float64 of any bit pattern concatenated to a string (fmt %v of floats)
+		seed, _ := strconv.ParseUint(os.Args[2], 10, 64)
+		n, _ := strconv.Atoi(os.Args[3])
+		out := openOut(os.Args[4])
+		meth := encMethods()
+		special := []float64{0, math.Copysign(0, -1), 1, -1, 0.1, 0.5, 1e5, 1e6, 123456, 1234567, 1e20, 1e21, 1e22, 1e23, 1e-4, 1e-5, 0.00012345, 5e-324, 2.2250738585072014e-308, 2.225073858507201e-308,
+			math.MaxFloat64, math.Inf(1), math.Inf(-1), math.NaN(), 9007199254740992, 9007199254740993, 4503599627370496, 0.3, 2.0 / 3, 1e15, 123456789.125, 100, 99999.5, 999999.5, 9.5e22, 8.41e21, 2e-323, 1.5e-323}
+		for i := 0; i < n; i++ {
+			r := NewRng(seed, uint64(i))
+			var x float64
+			switch c := r.Intn(100); {
+			case c < 20:
+				x = special[r.Intn(len(special))]
+			case c < 50: // any bit pattern
+				x = math.Float64frombits(r.Next())
+			case c < 65: // powers of two and their neighbours (asymmetric rounding interval)
+				b := uint64(r.Intn(2047)) << 52
+				x = math.Float64frombits(b + uint64(r.Intn(3)) - 1 + 1)
+				if r.Bool() {
+					x = math.Float64frombits(b)
+				}
+			case c < 85: // short decimals
+				x, _ = strconv.ParseFloat(fmt.Sprintf("%d.%de%d", r.Intn(100), r.Intn(1000), r.Intn(60)-30), 64)
+			default: // integers as floats
+				x = float64(int64(r.Next()) >> uint(r.Intn(63)))
+			}
+			if r.Chance(20) {
+				x = -x
+			}
+			env := &Env{Vals: map[string]any{}}
+			env.Names = append(env.Names, "x")
+			env.Vals["x"] = x
+			src := r.Pick([]string{"'' + x", "x + ''", "'v=' + x", "x + 'u'"})
+			res := implEval(src, env)
+			fx := fmt.Sprintf("%v", x) // the reference: Go's own formatting of the value as it is held
+			want := "OK s" + encRunes(map[string]string{"'' + x": fx, "x + ''": fx, "'v=' + x": "v=" + fx, "x + 'u'": fx + "u"}[src]) + " LOG "
+			c09 := ""
+			if res != want {
+				c09 = fmt.Sprintf("%s with x = %v (bits %#x): %s, expected %s", src, x, math.Float64bits(x), res, want)
+			}
+			out.count(strings.Split(res, " ")[0])
+			out.put(fmt.Sprintf("eval %s %s %s", meth, encEnv(env), encStr(src)), res, verdict("C09", c09), verdict("C08", panicOnly(res)))
 		}
 		out.close()
 	case "strlit": // <seed> <n> <outdir>: exhaustive strings of length <= 3 first, random beyond
